@@ -13,8 +13,21 @@ class _Cexptrk_Potential_Function(object):
   def __init__(self, potential_form_tuple):
     """:param potential_form_tuple: PotentialFormTuple describing this function"""
     self._potential_form_tuple = potential_form_tuple
+    self._check_label()
     self._local_symbol_table = self._init_symbol_table()
     self._expression = None
+
+  def _check_label(self):
+    # A label that is a function of the expression language ('root', 'exp'...) cannot be registered with the symbol
+    # table of any other formula: refuse it whether or not the model has a formula that would try.
+    label = self._potential_form_tuple.signature.label
+    scratch = cexprtk.Symbol_Table({})
+    try:
+      scratch.functions[label] = lambda *args: 0.0
+    except cexprtk._exceptions.NameShadowException as e:
+      raise Potential_Form_Exception("Name clash for potential-form '{}': {}".format(label, str(e)))
+    except KeyError as e:
+      raise Potential_Form_Exception("'{}' cannot be used as the label of a potential-form: {}".format(label, e.args[0]))
 
   def _init_symbol_table(self):
     local_symbol_table = cexprtk.Symbol_Table({}, add_constants = True)
@@ -39,7 +52,23 @@ class _Cexptrk_Potential_Function(object):
     except cexprtk._exceptions.NameShadowException as e:
       msg = "Name clash for potential-form '{}': {}".format(label, str(e))
       raise Potential_Form_Exception(msg)
-      
+    except KeyError as e:
+      # ... a label already held by the symbol table, for instance a [Table-Form] named like a pymath function
+      msg = "Name clash for potential-form '{}': {}".format(label, e.args[0])
+      raise Potential_Form_Exception(msg)
+
+  def compile(self):
+    """Parse the expression now (it is otherwise parsed at first use, so that a formula no entry refers to
+    would never be looked at). To be called once every function the formula may call has been registered."""
+    if not self._expression:
+      try:
+        self._expression = cexprtk.Expression(self._potential_form_tuple.expression, self._local_symbol_table)
+      except cexprtk.ParseException as pe:
+        sig = ",".join(self._potential_form_tuple.signature.parameter_names)
+        raise Potential_Form_Exception("In potential-form '{label}({sig}) = {expression}': mathematical expression couldn't be parsed {pe}".format(
+          label = self._potential_form_tuple.signature.label, sig = sig,
+          expression = self._potential_form_tuple.expression, pe = pe))
+
 
   def __call__(self, *args):
     parameter_names = self._potential_form_tuple.signature.parameter_names
